@@ -1180,6 +1180,24 @@ func (fe *FnEnc) trCall(x ECall, env *Env) SVal {
 	case "mtimeOf": // modification time last set for a path through os.Chtimes (ghost)
 		v := fe.mat(fe.tr(x.Args[0], env), env)
 		return SVal{T: tSel(fe.getComp(env.state(), "MT", arrSort(sStr, sInt)), v.T), Typ: env.resolveType("time.Time")}
+	case "wroteCount": // wroteCount(path): how often os.WriteFile(path, ...) succeeded (ghost)
+		a := fe.mat(fe.tr(x.Args[0], env), env)
+		return SVal{T: tSel(fe.getComp(env.state(), "WROTE", arrSort(sStr, sInt)), a.T), Typ: types.Typ[types.Int]}
+	case "lastEncodeTarget": // identity of the writer the last json Encode wrote into
+		return SVal{T: fe.getComp(env.state(), "lastEncodeTarget", sInt), Typ: types.Typ[types.UnsafePointer]}
+	case "pathJoin": // filepath.Join(a, b) for two elements
+		declPathFuns(fe)
+		a := fe.mat(fe.tr(x.Args[0], env), env)
+		b := fe.mat(fe.tr(x.Args[1], env), env)
+		return SVal{T: Term{app("path.join", a.T, b.T), sStr}, Typ: types.Typ[types.String]}
+	case "algOf", "hexOf": // the two parts of a digest
+		a := fe.mat(fe.tr(x.Args[0], env), env)
+		fn := q("digest.alg")
+		if x.Fn == "hexOf" {
+			fn = q("digest.hex")
+		}
+		fe.declFun(fn, []string{sStr}, sStr)
+		return SVal{T: Term{app(fn, a.T), sStr}, Typ: types.Typ[types.String]}
 	case "fswrites": // number of file system mutations so far (ghost)
 		return SVal{T: fe.getComp(env.state(), "fswrites", sInt), Typ: types.Typ[types.Int]}
 	case "truncated": // a body was read through a LimitReader that cut it short
